@@ -306,6 +306,8 @@ def classify(mnem, intent):
     v = intent.get("value")
     if f == "divzero":
         return ("reject", "division by zero")
+    if f == "nomode":
+        return ("reject", "mode: " + intent["why"])
     if f == "rel":
         # a branch whose target is label+-n: the displacement from the end of the branch must fit the field (C03/C12);
         # numeric or EQU targets are left open. intent carries "at" (address of the branch statement) when the harness knows the layout.
@@ -534,6 +536,8 @@ def parse_operand(mnem, text, symvals):
             return {"form": "inh"}
         if text[0] == "#":
             e = parse_expr(text[1:], symvals)
+            if not e and "," in text and _re.match(r"^#[^,\[\]#<>]*,(--?)?[XYUS](\+\+?)?$|^#[^,\[\]#<>]*,PCR$", text):
+                return {"form": "nomode", "why": "immediate sign on an indexed operand"}
             return {"form": "imm", "value": e[0], "nterms": e[1]} if e else None
         if text[0] in "<>":
             e = parse_expr(text[1:], symvals)
@@ -560,16 +564,19 @@ def parse_operand(mnem, text, symvals):
                 return None
             if pre or post:
                 if left != "":
+                    # an offset (constant or accumulator) together with auto increment/decrement: no such 6809 mode
+                    if left in ("A", "B", "D") or parse_expr(left, symvals):
+                        return {"form": "nomode", "why": "offset combined with auto increment/decrement"}
                     return None
                 sub = {"-": "dec1", "--": "dec2", "+": "inc1", "++": "inc2"}[pre or post]
                 return {"form": "idx", "sub": sub, "reg": reg, "indirect": ind}
             if left == "":
                 if reg == "PCR":
-                    return None
+                    return {"form": "nomode", "why": "PCR without an offset"}
                 return {"form": "idx", "sub": "zero", "reg": reg, "indirect": ind}
             if left in ("A", "B", "D"):
                 if reg == "PCR":
-                    return None
+                    return {"form": "nomode", "why": "accumulator offset from PCR"}
                 return {"form": "idx", "sub": "acc", "acc": left, "reg": reg, "indirect": ind}
             e = parse_expr(left, symvals)
             if not e:
